@@ -259,3 +259,47 @@ Example ma_key_order_nonvacuous :
   Permutation d d' /\ stack_ids [0%nat; 1%nat] d' = [1; 2; 3] /\ stack_values d' = [3; 1; 2] /\
   matd3_gate 2 (Nat.iter 3 matd3_counters_step [(0%nat, 1%nat); (1%nat, 1%nat)]) = true.
 Proof. split; [apply perm_swap|]. repeat split; vm_compute; reflexivity. Qed.
+
+(* ================================================================ Rainbow: the clamped, un-renormalised distribution *)
+From AgileV Require Import C08.ProofsRB.
+
+(* the element-wise loss of a done row is (total mass of the next observation's target distribution) x (a quantity
+   that depends on the reward and the log-probabilities only) ... *)
+Theorem rainbow_done_loss_is_mass_times_reward_term : forall g vmin vmax dz support x,
+  r_d x == 1 -> length (r_p x) = length support -> length (r_logp x) = length support ->
+  rb_elem g vmin vmax dz support x
+  == qsum (r_p x) * - qsum (map2 Qmult (rb_unit_cells g vmin vmax dz (length support) (r_r x) (r_d x)) (r_logp x)).
+Proof. exact rb_elem_done_is_mass_times_unit. Qed.
+Print Assumptions rainbow_done_loss_is_mass_times_reward_term.
+
+(* ... so two done rows that differ only in the next observation have losses in the ratio of those masses *)
+Theorem rainbow_done_losses_in_mass_ratio : forall g vmin vmax dz support x x',
+  r_d x == 1 -> r_r x = r_r x' -> r_d x = r_d x' -> r_logp x = r_logp x' ->
+  length (r_p x) = length support -> length (r_p x') = length support -> length (r_logp x) = length support ->
+  rb_elem g vmin vmax dz support x * qsum (r_p x') == rb_elem g vmin vmax dz support x' * qsum (r_p x).
+Proof. exact rb_elem_done_ratio. Qed.
+Print Assumptions rainbow_done_losses_in_mass_ratio.
+
+(* softmax(...).clamp(min=1e-3) without renormalisation: the mass is between the original one and 1e-3 per atom more;
+   renormalising restores mass 1 *)
+Theorem rainbow_clamp_mass_bounds : forall p, Forall (fun x => 0 <= x) p ->
+  psum p <= psum (clamp_dist p) /\ psum (clamp_dist p) <= psum p + inject_Z (Z.of_nat (length p)) * (1 # 1000).
+Proof. exact clamp_dist_mass_bounds. Qed.
+Print Assumptions rainbow_clamp_mass_bounds.
+
+Theorem rainbow_renormalised_mass_is_one : forall p, ~ qsum p == 0 -> qsum (renorm p) == 1.
+Proof. exact renorm_mass. Qed.
+Print Assumptions rainbow_renormalised_mass_is_one.
+
+(* the pinned network: two next observations with proper (mass 1) softmax outputs get different masses from the clamp and
+   the done row's loss differs; after renormalisation it does not *)
+Theorem rainbow_clamped_mass_leaks_next_obs_refuted :
+  exists (p p' logp : list Q) (sup : list Q),
+    qsum p == 1 /\ qsum p' == 1 /\ length p = length sup /\ length p' = length sup /\
+    let x  := {| r_r := 0; r_d := 1; r_p := clamp_dist p;  r_logp := logp |} in
+    let x' := {| r_r := 0; r_d := 1; r_p := clamp_dist p'; r_logp := logp |} in
+    ~ rb_elem (1 # 2) (-1) 1 1 sup x == rb_elem (1 # 2) (-1) 1 1 sup x' /\
+    rb_elem (1 # 2) (-1) 1 1 sup {| r_r := 0; r_d := 1; r_p := renorm (clamp_dist p); r_logp := logp |}
+    == rb_elem (1 # 2) (-1) 1 1 sup {| r_r := 0; r_d := 1; r_p := renorm (clamp_dist p'); r_logp := logp |}.
+Proof. exact rainbow_clamped_mass_leaks_next_obs_refuted_lemma. Qed.
+Print Assumptions rainbow_clamped_mass_leaks_next_obs_refuted.
